@@ -485,7 +485,7 @@ def run(ck: Check):
         "per validated constructor (18 classes + 8 num_bins/window_size sites): every parameter swept over its boundary grid (just outside / on / just inside each bound, NaN, +-inf, extreme "
         "magnitudes, wrong types where a type is checked) with the others at their defaults; all grid x grid combinations for the parameter pairs tied by an ordering constraint; random "
         "combinations; acceptance compared with the domain typed from the error messages (independent of the code) and with the Coq validator run in binary64; every accepted configuration is "
-        "then run on in-domain streams long enough to fill every window (3 streams, one with resets) or a fit/compare/update battery; non-trivial = a rejected configuration, or an accepted one on a bound"
+        "then run on in-domain streams long enough to fill every window (3 streams, one with resets) or a fit/compare/update battery; plus runs of 650-1000 values with several level changes and no reset (ADWIN with m = 1, 2; every other detector); non-trivial = a rejected configuration, or an accepted one on a bound"
     )
     cases = []
     for spec in specs():
@@ -533,6 +533,36 @@ def run(ck: Check):
             except (TypeError, ValueError):
                 continue
             cases.append((spec.name, p, res, expr))
+    # long multi-regime runs (several detections in a row, no reset): ADWIN with one or two buckets per row (rows
+    # empty out and are dropped in cascades), and every other detector at its defaults and at a small boundary config
+    long_cfgs = [("ADWIN", dict(clock=1, delta=0.002, m=1, min_window_size=2, min_num_instances=3)),
+                 ("ADWIN", dict(clock=1, delta=0.05, m=1, min_window_size=1, min_num_instances=1)),
+                 ("ADWIN", dict(clock=2, delta=0.002, m=2, min_window_size=1, min_num_instances=5)),
+                 ("ADWIN", dict(clock=32, delta=0.002, m=5, min_window_size=5, min_num_instances=10))]
+    for name in ("DDM", "EDDM", "RDDM", "ECDDWT", "HDDMA", "HDDMW", "KSWIN", "STEPD", "CUSUM", "PageHinkley", "GeometricMovingAverage"):
+        long_cfgs.append((name, None))
+    for name, cfgd in long_cfgs:
+        det = BY_NAME[name]
+        for k in range(2 if not thorough else 6):
+            cfgx = dict(cfgd) if cfgd is not None else det.gen_cfg(rng)
+            segs = [(0.0, 50), (1.0, 300), (0.0, 300)] if k == 0 else [(rng.choice([0.0, 1.0, 0.2, 0.8]), rng.choice([40, 120, 260])) for _ in range(4)]
+            if det.domain == "01":
+                xs = [int(rng.random() < lvl) if 0 < lvl < 1 else int(lvl) for lvl, ln in segs for _ in range(ln)]
+            else:
+                xs = [lvl + (rng.gauss(0, 0.02) if k else 0.0) for lvl, ln in segs for _ in range(ln)]
+                xs = [min(1.0, abs(v)) if det.domain == "unit" else abs(v) for v in xs]
+            try:
+                d = det.make(cfgx)
+            except Exception:  # noqa: BLE001
+                continue
+            ck.case(dict(cls=name, params=cfgx, kind="long-multi-regime", n=len(xs)), nontrivial=True, key=repr(("long", name, cfgx, k)))
+            ck.count("long_multi_regime_runs")
+            for i, v in enumerate(xs):
+                try:
+                    d.update(value=v)
+                except Exception as e:  # noqa: BLE001
+                    ck.violation(dict(clause="operable", cls=name + "Config", error=type(e).__name__, regime="long"), dict(what="an accepted configuration raised on an in-domain stream with several level changes", cls=name, params=cfgx, error=repr(e), step=i, segments=segs, stream_head=xs[:5]))
+                    break
     res = coq_eval("C19", HDR19, [c[3] for c in cases], shard=400)
     for (name, p, im, _), r in zip(cases, res):
         ck.corr_cases += 1
